@@ -20,6 +20,7 @@ struct Probe
    static soplex::SPxSolverBase<double>& solver(soplex::SoPlex& s) { return s._solver; }
    static const soplex::SPxLPBase<double>& realLP(const soplex::SoPlex& s) { return *s._realLP; }
    static int ratSense(const soplex::SoPlex& s) { return s._rationalLP->spxSense() == soplex::SPxLPRational::MAXIMIZE ? 1 : -1; }
+   static const soplex::SPxScaler<double>* scaler(const soplex::SoPlex& s) { return s._scaler; }
    static int optCalls(const soplex::SoPlex& s) { return s._optimizeCalls; }
    static int unscaleCalls(const soplex::SoPlex& s) { return s._unscaleCalls; }
 };
@@ -71,7 +72,9 @@ inline std::string emptyQ()
    return "{\"nr\":0,\"nc\":0,\"nnz\":0,\"storedZeros\":0,\"rows\":[],\"cols\":[],\"lhs\":[],\"rhs\":[],\"lo\":[],\"up\":[],\"obj\":[],\"sense\":0}";
 }
 
-inline std::string proj(SoPlex& s)
+// allowInternal: the caller knows that the scaler object currently selected is the one that scaled the stored LP
+// (not the case for copies and after a change of the SCALER parameter on a scaled LP)
+inline std::string proj(SoPlex& s, bool allowInternal = false)
 {
    J o; int nr = s.numRows(), nc = s.numCols();
    o.i("nr", nr).i("nc", nc).i("nnz", s.numNonzeros());
@@ -103,6 +106,21 @@ inline std::string proj(SoPlex& s)
       o.raw("brow", statuses(br.data(), nr)).raw("bcol", statuses(bc.data(), nc));
    }
    else o.raw("brow", "[]").raw("bcol", "[]");
+   // C09: the LP as stored (scaled by powers of two) together with the exponents the scaler chose
+   if(allowInternal && Probe::scaled(s) && Probe::loaded(s) && Probe::scaler(s) != nullptr && s.intParam(SoPlex::SCALER) != SoPlex::SCALER_OFF)
+   {
+      const SPxScaler<double>* sc = Probe::scaler(s);
+      const SPxLPBase<double>& lp = Probe::realLP(s);
+      J in;
+      in.raw("rexp", jarr(nr, [&](int i) { return std::to_string(sc->getRowScaleExp(i)); }));
+      in.raw("cexp", jarr(nc, [&](int j) { return std::to_string(sc->getColScaleExp(j)); }));
+      in.raw("rows", jarr(nr, [&](int i) { const SVectorBase<double>& v = lp.rowVector(i); std::vector<std::pair<int, std::string>> e; for(int k = 0; k < v.size(); k++) if(v.value(k) != 0.0) e.push_back({v.index(k), qdraw(v.value(k))}); return jsp(e); }));
+      in.raw("lhs", jarr(nr, [&](int i) { return jq(qd(lp.lhs(i))); })).raw("rhs", jarr(nr, [&](int i) { return jq(qd(lp.rhs(i))); }));
+      in.raw("lo", jarr(nc, [&](int j) { return jq(qd(lp.lower(j))); })).raw("up", jarr(nc, [&](int j) { return jq(qd(lp.upper(j))); }));
+      in.raw("maxobj", jarr(nc, [&](int j) { return jq(qdraw(lp.maxObj(j))); }));
+      o.b("hasInternal", true).raw("internal", in.str());
+   }
+   else o.b("hasInternal", false).raw("internal", "{\"rexp\":[],\"cexp\":[],\"rows\":[],\"lhs\":[],\"rhs\":[],\"lo\":[],\"up\":[],\"maxobj\":[]}");
    int sync = s.intParam(SoPlex::SYNCMODE);
    bool hasQ = Probe::hasRational(s);
    o.i("sync", sync).b("hasQ", hasQ);
